@@ -3,7 +3,7 @@ import numpy as np
 
 from . import pipe
 from .C02 import vec_family
-from .core import coq_eval_many, parse_count_fail, proof_stage
+from .core import coq_eval_many, flist, flit, parse_count_fail, proof_stage
 
 METHODS = ['central', 'central2', 'forward', 'backward', 'complex', 'multicomplex']
 
@@ -76,9 +76,115 @@ def search(ctx, N):
             ctx.violation('hessian-scalar-x:%s' % method, 'nd.Hessian(lambda t: 3*t[0]**2, method=%r)(1.0) raises %r' % (method, ex), {'method': method})
 
 
+SHDR = """Require Import NDT.Arith.Ops NDT.Arith.OpsFloat NDT.Model.HessStencil.
+From Coq Require Import PrimFloat List Bool String. Import ListNotations.
+(* (stencil name, h, tables of recorded function values in evaluation order, f(x), upper triangle / vector produced by the source) *)
+Definition okH (c : string * list float * list (list float) * float * list float) : bool :=
+  let '(name, h, t, fx, out) := c in
+  let tb := fun k => nth k t [] in
+  let r := if String.eqb name "forward"%string then hess_forward OpsF h (tb 0%nat) (tb 1%nat) fx
+           else if String.eqb name "backward"%string then hess_backward OpsF h (tb 0%nat) (tb 1%nat) fx
+           else if String.eqb name "central2"%string then hess_central2 OpsF h (tb 0%nat) (tb 1%nat) (tb 2%nat) (tb 3%nat) fx
+           else if String.eqb name "central-diag"%string then hess_central_diag OpsF h (tb 0%nat) (tb 1%nat) fx
+           else if String.eqb name "central-off"%string then hess_central_off OpsF h (tb 0%nat) (tb 1%nat) (tb 2%nat) (tb 3%nat)
+           else if String.eqb name "hd-central2"%string then map (fun i => hd_central2 OpsF (nz OpsF (tb 0%nat) i) (nz OpsF (tb 1%nat) i) (nz OpsF (tb 2%nat) i) (nz OpsF (tb 3%nat) i) fx) (seq 0%nat (List.length h))
+           else if String.eqb name "hd-central"%string then map (fun i => hd_central_even OpsF (nz OpsF (tb 0%nat) i) (nz OpsF (tb 1%nat) i) fx) (seq 0%nat (List.length h))
+           else if String.eqb name "hd-forward"%string then map (fun i => hd_forward OpsF (nz OpsF (tb 0%nat) i) fx) (seq 0%nat (List.length h))
+           else if String.eqb name "hd-backward"%string then map (fun i => hd_backward OpsF (nz OpsF (tb 0%nat) i) fx) (seq 0%nat (List.length h))
+           else [] in
+  leqf r out.
+"""
+
+
+def stencil_cases(ctx, N):
+    """bit-exact tie of the combination formulas of the real-step Hessian / Hessdiag stencils (Model/HessStencil.v):
+    the source's static methods are called with a recording f; the recorded values (in evaluation order) are fed to the model."""
+    from numdifftools import finite_difference as fdm
+    rng = ctx.rng(23)
+    cases, descs = [], []
+    HD, HS = fdm.HessdiagDifferenceFunctions, fdm.HessianDifferenceFunctions
+    for k in range(N):
+        n = int(rng.integers(1, 6))
+        f0_, _, _, par = vec_family(rng, n)
+        x = rng.uniform(-1, 1, size=n) * 10.0 ** rng.uniform(-1, 1, size=n)
+        h = 10.0 ** rng.uniform(-4, -0.5, size=n) * rng.uniform(0.5, 2, size=n)
+        vals = []
+
+        def f(t):
+            v = float(f0_(np.asarray(t, dtype=float)))
+            vals.append(v)
+            return v
+        fx = float(f0_(x))
+        up = [(i, j) for i in range(n) for j in range(i, n)]
+        sup = [(i, j) for i in range(n) for j in range(i + 1, n)]
+        for name in ('forward', 'backward', 'central2', 'central', 'hd-central2', 'hd-central', 'hd-forward', 'hd-backward'):
+            del vals[:]
+            desc = dict(par, x=x.tolist(), h=h.tolist(), stencil=name)
+            try:
+                if name == 'forward' or name == 'backward':
+                    H = getattr(HS, '_' + name)(f, fx, x, h)
+                    tables = [vals[:n], vals[n:]]
+                    out = [H[i, j] for i, j in up]
+                    sym = np.array_equal(H, H.T)
+                    hh = h
+                elif name == 'central2':
+                    H = HS._central2(f, fx, x, h)
+                    first, rest = vals[:2 * n], vals[2 * n:]
+                    tables = [first[0::2], first[1::2], rest[0::2], rest[1::2]]
+                    out = [H[i, j] for i, j in up]
+                    sym = np.array_equal(H, H.T)
+                elif name == 'central':
+                    H = HS._central_even(f, fx, x, h)
+                    fp2, fm2, pp, pm, mp_, mm = [], [], [], [], [], []
+                    it = iter(vals)
+                    for i in range(n):
+                        fp2.append(next(it)); fm2.append(next(it))      # noqa
+                        for j in range(i + 1, n):
+                            pp.append(next(it)); pm.append(next(it)); mp_.append(next(it)); mm.append(next(it))   # noqa
+                    sym = np.array_equal(H, H.T)
+                    cases.append('("central-diag"%%string, %s, [%s; %s], %s, %s)' % (flist(h), flist(fp2), flist(fm2), flit(fx), flist([H[i, i] for i in range(n)])))
+                    descs.append(dict(desc, part='diagonal'))
+                    cases.append('("central-off"%%string, %s, [%s; %s; %s; %s], %s, %s)' % (flist(h), flist(pp), flist(pm), flist(mp_), flist(mm), flit(fx), flist([H[i, j] for i, j in sup])))
+                    descs.append(dict(desc, part='off-diagonal'))
+                    if not sym:
+                        ctx.brk('correspondence', 'HessianDifferenceFunctions._central_even does not copy entry (i, j) to (j, i)', desc)
+                    ctx.count(1, ('stencil-tie', name, n))
+                    continue
+                else:
+                    v = getattr(HD, {'hd-central2': '_central2', 'hd-central': '_central_even', 'hd-forward': '_forward', 'hd-backward': '_backward'}[name])(f, fx, x, h)
+                    per = {'hd-central2': 4, 'hd-central': 2, 'hd-forward': 1, 'hd-backward': 1}[name]
+                    tables = [vals[c::per] for c in range(per)]
+                    out = list(np.ravel(v))
+                    sym = True
+            except Exception as ex:   # noqa
+                ctx.brk('correspondence', 'the stencil %s raised %r' % (name, ex), desc)
+                continue
+            if not sym:
+                ctx.brk('correspondence', 'the Hessian stencil %s does not copy entry (i, j) to (j, i)' % name, desc)
+            cases.append('("%s"%%string, %s, [%s], %s, %s)' % (name, flist(h), '; '.join(flist(t) for t in tables), flit(fx), flist(out)))
+            descs.append(desc)
+            ctx.count(1, ('stencil-tie', name, n))
+    return cases, descs
+
+
 def run(ctx):
     import numdifftools as nd
     proof_stage(ctx, 'Props/C04.v')
+    scases, sdescs = stencil_cases(ctx, ctx.n(40, 400))
+    sitems = [('C04_S_%d' % s, SHDR + 'Definition cases := [\n' + ';\n'.join(scases[s:s + 150]) + '].\nEval vm_compute in (List.length cases, failing okH cases).\n') for s in range(0, len(scases), 150)]
+    sbad = 0
+    for name, (rc, out) in sorted(coq_eval_many(sitems).items()):
+        s = int(name.split('_')[2])
+        pr = parse_count_fail(out)
+        if rc != 0 or pr is None:
+            ctx.brk('correspondence', 'case file %s could not be evaluated' % name, out[-1500:])
+            continue
+        for i in pr[1]:
+            sbad += 1
+            if sbad <= 5:
+                ctx.brk('correspondence', 'a Hessian / Hessdiag difference quotient differs bit-for-bit from Model/HessStencil.v (order of operations, divisor h[j]*h[i], factors 2 and 4) fed the recorded function values', sdescs[s + i])
+    ctx.cov['stencil_cases'] = len(scases)
+    ctx.cov['stencil_disagreements'] = sbad
     rng = ctx.rng(1)
     cases, descs = [], []
     skipped = {}
@@ -127,12 +233,12 @@ def run(ctx):
             nbad += 1
             if nbad <= 5:
                 ctx.brk('correspondence', 'an entry of the Hessian/Hessdiag result differs bit-for-bit from the model of _extrapolate (Richardson, dea3, selection) fed that column', descs[s + i])
-    ctx.cov['traces_validated_against_impl'] = len(cases)
-    ctx.cov['correspondence_disagreements'] = nbad
+    ctx.cov['traces_validated_against_impl'] = len(cases) + len(scases)
+    ctx.cov['correspondence_disagreements'] = nbad + sbad
     ctx.cov['skipped'] = skipped
     search(ctx, ctx.n(10, 120))
     ctx.assumptions += ['proved: exact symmetry for any arithmetic given that the stencil copies (i,j) to (j,i) (observed on every recorded stencil output), exactness of every real-step Hessian/Hessdiag difference quotient on quadratics in any dimension; NOT proved: the complex / multicomplex quotients (they need the complexification of f) and the accuracy envelope for non-quadratic f -- both explored by the sweep against analytic Hessians',
-                        'the Hessian stencils themselves (evaluation points) are the subject of C05']
+                        'the evaluation points of the stencils are the subject of C05; their combination formulas (real-step Hessian forward/backward/central/central2 and Hessdiag) are tied bit-for-bit to Model/HessStencil.v, about which the quadratic-exactness theorems are stated']
     return ctx.finish(level='proof', checker_cmd='make -C coq Props/C04.vo + coqc build/cases/C04_*.v',
                       rule='Hessian (6 methods) and Hessdiag (orders 2,4,6) on exp(a.x)+sin(b.x)+x\'Qx/2 and pure quadratics, n = 1..6, default and user steps, f returning a scalar or a length-1 array, scalar x; every result entry tied to the model of _extrapolate; '
                            'distinct = (kind, class/method, dimension or order) combinations hit')
